@@ -732,7 +732,7 @@ func main() {
 	}
 
 	// 1. sequences
-	ns := run.Count(650, 60000)
+	ns := run.Count(550, 60000)
 	fixed := []string{"", " ", "0", "0*", "0+", "0?", "1-1 1-2 | 1-3", "(1-1 1-2) | 1-3", "1-1 (1-2 | 1-3)", "1-1|1-2 1-3",
 		"1-FF00:0:110 0", "1-0:0:1 0", "1 -1 0", "1-00", "1-0:0:01 0", "1#0", "0-0-0#0", "0#0#0", "1-0", "()", "(0", "0)",
 		"0 | | 0", "| 0", "0 |", "0 ? ?", "0**", "1-1#1,", "1-1#", "1-1#1,2,3", "1-4294967296 0", "1-fffff:0:0 0",
@@ -877,7 +877,7 @@ func main() {
 	}
 
 	// 4. policies
-	np := run.Count(200, 10000)
+	np := run.Count(160, 10000)
 	for i := 0; i < np; i++ {
 		r := rng.Fork(uint64(9000000 + i))
 		g := genPolicy(r, 0)
